@@ -25,7 +25,14 @@ func (vc *VC) frameObligations(Rexit string, final *Mem, entry *Env) {
 		var objs []string
 		if vc.con != nil {
 			for _, md := range vc.con.Mods {
-				if md.Loop != 0 || md.Key != k {
+				if md.Loop != 0 {
+					continue
+				}
+				if p, wild := isWildKey(md.Key); wild && strings.HasPrefix(k, p) {
+					whole = true
+					continue
+				}
+				if md.Key != k {
 					continue
 				}
 				if md.AtE == nil {
